@@ -185,7 +185,7 @@ func (c *Cluster) doExt(s Step, out *Outcome) bool {
 			SourcePartition: "default", DestinationPartition: "default",
 			SourceType: structs.IntentionSourceConsul, Action: structs.IntentionAction(s.Text), Description: s.Text2,
 			CreatedAt: time.Now().UTC().Round(0), UpdatedAt: time.Now().UTC().Round(0)}
-		ixn.UpdatePrecedence()
+		// Precedence is left to the store, as the Intention.Apply endpoint does
 		//nolint:staticcheck
 		ixn.SetHash()
 		op := structs.IntentionOpCreate
